@@ -17,6 +17,13 @@ Oracle in every state reached by generate(n) from position k0:
     single skip (all positions);
   * Fd = 0 => every sample equals the constructor's sample; |h| <= sqrt(L).
 In every state reached by skip(n): get_samples() is unchanged.
+Kept pieces: every array handed out by get_samples() (the constructor's sample and one per
+generate) is kept WITHOUT copying; after the last event of every history each of them must be
+byte-identical to what it was when returned, still equal the Jakes formula for its positions
+(pieces <= 128 samples), and no two may share memory (a caller that collects the pieces and
+concatenates them afterwards); also for the second live object, the large requests (a second
+request of the same size), generate_jakes_samples chains, Rayleigh, and after the caller wrote
+into a returned array (lifecycle event "scribble").
 A state in which a request raised is a terminal (failed) state.
 
 Bounds.  Events: generate n in {1,2,3,7,100}, skip n in {1,5,1e6,1e7+3,1e9,1e10}.
@@ -179,6 +186,14 @@ class JState:
         self.phi = self.psi = self.s0 = None
         self.prev_samples = None
         self.k_before = 0
+        self.kept = []          # every array handed out by get_samples(), NOT copied: dict(arr, snap, k0, n, what)
+
+
+def keep(st, what, k0, n):
+    """remember the very array object the generator hands out (as a caller that collects the pieces would)"""
+    a = st.g.get_samples()
+    if isinstance(a, np.ndarray):
+        st.kept.append(dict(arr=a, snap=a.tobytes(), k0=k0, n=n, what=what))
 
 
 def _tup(shape):
@@ -225,6 +240,7 @@ def build(cfg, hist):
         st.phi = np.array(g._phi_l, dtype=float, copy=True)
         st.psi = np.array(g._psi_l, dtype=float, copy=True)
         st.s0 = np.array(g.get_samples(), copy=True)
+        keep(st, "constructor_sample", 0, 1)
     except Exception as e:  # noqa - reported by the invariant
         st.err = ("construct", e)
         return st
@@ -241,6 +257,8 @@ def build(cfg, hist):
         except Exception as e:  # noqa
             st.err = (kind, e)
             return st
+        if kind == "generate":
+            keep(st, "generate(%d)" % n, st.k, n)
         st.k += n
     return st
 
@@ -287,7 +305,48 @@ def case_of(cfg, hist):
             "history": [list(h) for h in hist]}
 
 
+KEPT_FORMULA_MAX = 128      # kept arrays up to this many samples are also re-compared with the formula
+
+
+def check_kept(chk, cfg, st, case):
+    """a caller that keeps the returned pieces and assembles the stretch afterwards: after the last event
+    every array returned earlier still holds what it held when it was returned (exactly), still equals the
+    Jakes formula for its own positions, and no two of them share memory"""
+    kept = getattr(st, "kept", None)
+    if not kept or len(kept) < 2:
+        return
+    chk.count("eval_kept_array_rechecks")
+    chk.count("kept_arrays_rechecked", len(kept))
+    for i, kp in enumerate(kept):
+        a = kp["arr"]
+        if a.tobytes() != kp["snap"]:
+            later = [q["what"] for q in kept[i + 1:]]
+            chk.fail(("returned_array", "overwritten_by_a_later_request",
+                      "constructor_sample" if kp["what"] == "constructor_sample" else "generate"), case,
+                     observed="the array returned by %s (positions %r..) changed after %s"
+                     % (kp["what"], kp["k0"], ", ".join(later) or "a later event"),
+                     expected="returned samples stay what they were")
+            continue
+        for q in kept[i + 1:]:
+            if np.shares_memory(a, q["arr"]):
+                chk.fail(("returned_array", "shares_memory_with_a_later_result"), case,
+                         observed="%s and %s" % (kp["what"], q["what"]), expected="independent arrays")
+                break
+        if kp["k0"] is not None and kp["n"] <= KEPT_FORMULA_MAX and i < len(kept) - 1 \
+                and a.shape == shape_tuple(cfg["shape"]) + (kp["n"],):
+            ref = jakes_reference(cfg, st.phi, st.psi, kp["k0"], kp["n"])
+            if not np.all(np.abs(a - ref) <= value_tol(cfg, kp["k0"] + kp["n"])):
+                chk.fail(("returned_array", "value_vs_jakes_formula_at_end_of_history"), case,
+                         observed=a.ravel()[:3], expected=ref.ravel()[:3])
+
+
 def check_state(chk, cfg, hist, st, case=None):
+    _check_state(chk, cfg, hist, st, case)
+    if st.err is None:
+        check_kept(chk, cfg, st, case_of(cfg, hist) if case is None else case)
+
+
+def _check_state(chk, cfg, hist, st, case=None):
     case = case_of(cfg, hist) if case is None else case
     ks = cfg.get("k_start", 1)        # position right after the generator was obtained
     L, Fd = cfg["L"], cfg["Fd"]
@@ -431,7 +490,8 @@ def float_fields(o):
 # already ran, the shape setter mid-history), a second live generator used alternately, error paths
 # ----------------------------------------------------------------------
 LIFE_FDTS_L = ((100.0, 1e-3, 8, None), (5.0, 3.25e-8, 1, (2, 3)))
-LIFE_VALID = (("generate", 1), ("generate", 7), ("skip", 5), ("b_generate", 3), ("b_skip", 5))
+LIFE_VALID = (("generate", 1), ("generate", 7), ("skip", 5), ("b_generate", 3), ("b_skip", 5),
+              ("scribble", 0))      # the caller writes into the array it was last given (a valid thing to do)
 # invalid requests: if they raise, the object must be field-for-field unchanged and go on as if nothing happened
 LIFE_INVALID = (("generate", 2.5), ("generate", "3"), ("skip", None),
                 ("set_shape", "x"), ("set_shape", (-1,)), ("set_shape", (2.5,)))
@@ -478,6 +538,7 @@ class LState:
 def _view(g, phi, psi, s0, k):
     v = JState()
     v.g, v.phi, v.psi, v.s0, v.k = g, phi, psi, s0, k
+    keep(v, "constructor_sample" if k == 1 else "sample_held_when_obtained", 0 if k == 1 else None, 1)
     return v
 
 
@@ -510,6 +571,14 @@ def build_life(cfg, hist):
         st.last = "b" if on_b else "a"
         st.note = None
         base = kind[2:] if on_b else kind
+        if base == "scribble":
+            # the caller overwrites the array it was last given; nothing about the process may change
+            if o.kept:
+                kp = o.kept[-1]
+                if kp["arr"].flags.writeable:
+                    kp["arr"][...] = -7.0 + 3.0j
+                kp["snap"], kp["k0"] = kp["arr"].tobytes(), None
+            continue
         valid = base in ("generate", "skip") and isinstance(n, int) and not isinstance(n, bool) and \
             (n >= 1 if base == "generate" else n >= 0)
         other_before = _digest(other.g)
@@ -534,6 +603,8 @@ def build_life(cfg, hist):
             if raised is not None:
                 o.err = (base, raised)
                 return st
+            if base == "generate":
+                keep(o, "generate(%d)" % n, o.k, n)
             o.k += n
             if on_b:
                 st.hist_b += ((base, n),)
@@ -578,6 +649,9 @@ def resync(o, spec, what, changed):
                 "shape %r, phases %r" % (shape, np.shape(g._phi_l)), "phases of shape (L,) + shape + (1,)")
     o.k = k
     spec["shape"] = shape
+    for kp in o.kept:
+        # whatever the invalid call did to pieces handed out earlier is free; from here on they must stay
+        kp["k0"], kp["snap"] = None, kp["arr"].tobytes()
     if changed:
         o.phi = np.array(g._phi_l, dtype=float, copy=True)
         o.psi = np.array(g._psi_l, dtype=float, copy=True)
@@ -619,11 +693,21 @@ def check_life(chk, cfg, hist, st):
             check_state(chk, st.spec_b, (), st.b, case=case)
         return
     c = chk if st.after_invalid is None else AfterInvalid(chk, st.after_invalid)
+    # pieces handed out by VALID requests and overwritten by VALID requests: not a consequence of the invalid
+    # call (their snapshots were refreshed at the invalid call), so the plain signature is used
+    if hist[-1][0] == "scribble":
+        # nothing was requested: only the pieces handed out so far are looked at again
+        check_kept(chk, st.spec_a, st.a, case)
+        check_kept(chk, st.spec_b, st.b, case)
+        return
     if st.last == "a":
-        check_state(c, st.spec_a, st.hist_a, st.a, case=case)
+        _check_state(c, st.spec_a, st.hist_a, st.a, case)
     else:
         chk.count("eval_second_live_object")
-        check_state(c, st.spec_b, st.hist_b, st.b, case=case)
+        _check_state(c, st.spec_b, st.hist_b, st.b, case)
+    if st.a.err is None and st.b.err is None:
+        check_kept(chk, st.spec_a, st.a, case)
+        check_kept(chk, st.spec_b, st.b, case)      # ... also the pieces the OTHER generator handed out
 
 
 class AfterInvalid:
@@ -682,9 +766,18 @@ def function_case(chk, case):
                 if True:
                     if True:
                         t, k = k0 * Ts, k0
+                        held = []
                         for n in case["n"]:
                             chk.count("eval_function_calls")
-                            t_new, h = FG.generate_jakes_samples(Fd, Ts, n, L, shape, t, phi.copy(), psi.copy())
+                            p_in, q_in = phi.copy(), psi.copy()
+                            t_new, h = FG.generate_jakes_samples(Fd, Ts, n, L, shape, t, p_in, q_in)
+                            if not (np.array_equal(p_in, phi) and np.array_equal(q_in, psi)):
+                                chk.fail(("generate_jakes_samples", "phase_arguments_modified"), case)
+                            for a0, b0 in held:
+                                if a0.tobytes() != b0 or np.shares_memory(a0, h):
+                                    chk.fail(("returned_array", "overwritten_by_a_later_request",
+                                              "generate_jakes_samples"), case)
+                            held.append((h, np.asarray(h).tobytes()))
                             want_shape = shape_tuple(shape) + (n,)
                             if np.shape(h) != want_shape:
                                 chk.fail(("generate_jakes_samples", "wrong_shape", pos_bucket(k)), case,
@@ -728,6 +821,7 @@ def check_rayleigh_part(chk, seed):
         shp = shape_tuple(shape)
         for hist in [()] + [(a,) for a in (("generate", 1), ("generate", 100), ("skip", 5), ("similar", 0))] + \
                 [(("generate", 7), ("skip", 10 ** 6), ("generate", 2)), (("set_shape", 4), ("generate", 3)),
+                 (("generate", 5), ("generate", 5), ("skip", 1)), (("generate", 1), ("skip", 3), ("generate", 1), ("skip", 1)),
                  (("similar", 0), ("generate", 5)), (("generate", 5), ("set_shape", None), ("generate", 2))]:
             case = {"part": "rayleigh", "shape": shape, "history": [list(h) for h in hist], "np_seed": 7 + seed}
             with chk.guard(("rayleigh",), case):
@@ -745,7 +839,17 @@ def rayleigh_case(chk, case):
                 g = RayleighSampleGenerator(shape)
                 cur = shape_tuple(shape)
                 chk.count("eval_rayleigh_states")
+                held = []
                 for kind, n in hist:
+                    for a0, b0, w0 in held:
+                        if a0.tobytes() != b0:
+                            chk.fail(("returned_array", "overwritten_by_a_later_request", "rayleigh"), case,
+                                     observed="array returned by %s changed" % w0)
+                    a0 = g.get_samples()
+                    if isinstance(a0, np.ndarray) and not any(a0 is x[0] for x in held):
+                        if any(np.shares_memory(a0, x[0]) for x in held):
+                            chk.fail(("returned_array", "shares_memory_with_a_later_result", "rayleigh"), case)
+                        held.append((a0, a0.tobytes(), "before %s" % kind))
                     before = np.array(g.get_samples(), copy=True)
                     if kind == "generate":
                         g.generate_more_samples(n)
@@ -869,6 +973,20 @@ def large_case(chk, cfg, n, label, full):
             chk.fail(("generate_more_samples", "large_single_request", "differs_from_smaller_requests"), case,
                      observed=s[..., a - 1:a + 2].ravel()[:3], expected=w.ravel()[:3])
             break
+    # a second request of the same size must not touch the array returned by the first one
+    if full or per * n <= 1.6 * LARGE_UNIT:
+        snap = s.tobytes()
+        g.generate_more_samples(n)
+        s2 = g.get_samples()
+        chk.count("eval_kept_array_rechecks")
+        chk.count("kept_arrays_rechecked", 2)
+        if s.tobytes() != snap:
+            chk.fail(("returned_array", "overwritten_by_a_later_request", "generate"), case,
+                     observed="the array returned by generate(%d) changed after a second generate(%d)" % (n, n),
+                     expected="returned samples stay what they were")
+        elif np.shares_memory(s, s2):
+            chk.fail(("returned_array", "shares_memory_with_a_later_result"), case)
+        del s2
 
 
 def run_config(chk, cfg, depth):
